@@ -20,3 +20,6 @@ Lemma table_no_wait_deadlock_l (grp : nat -> list group) (progs : nat -> list ge
   (forall i, n <= i -> progs i = []) ->
   greach grp s0 s -> ~ gdeadlocked grp n s.
 Proof. exact (graph_no_wait_deadlock _ grp progs n s0 s wait_graph_okb_holds). Qed.
+
+Lemma table_covers_waits_l : wait_coverage_okb waits members = true.
+Proof. vm_compute. reflexivity. Qed.
